@@ -618,3 +618,50 @@ silent('C19', 'belt-uses-numpy-round',
        lambda p: M.replace_node(p, S_BELT, 'BeltStore.move_to_ready_items', M.assign_to('phase1_time'), 'phase1_time = float(np.round(item[0].length / self.speed, 12))'))
 silent('C19', 'machine-iterates-worker-list',
        lambda p: M.insert_before(p, N_MAC, 'Machine.update_final_state_time', lambda n: isinstance(n, ast.For), 'for w in list(self.worker_thread_list):\n    pass'))
+
+# ============================================================================================ C20
+fire('C20', 'buffer-reads-missing-attribute', 'C20.R1', 'Buffer.can_get',
+     lambda p: M.replace_node(p, E_BUF, 'Buffer.can_get', lambda n: isinstance(n, ast.If), 'if not self.out_buf:\n    return False'))
+fire('C20', 'machine-reads-misspelt-attribute', 'C20.R1', 'Machine.worker',
+     lambda p: M.replace_node(p, N_MAC, 'Machine.worker', M.stmt_calling('self._update_avg_time_spent_in_processing'),
+                              'self._update_avg_time_spent_in_processing(self.env.now - self.processing_start)'))
+fire('C20', 'machine-unguarded-edge-attribute', 'C20.R1', 'Machine.behaviour',
+     lambda p: M.replace_node(p, N_MAC, 'Machine.behaviour', M.assign_to('self.in_edge_events'), 'self.in_edge_events = [edge.inbuiltstore.reserve_get() for edge in self.in_edges]'))
+fire('C20', 'fleet-drops-can-put', 'C20.R2', 'Fleet.can_put',
+     lambda p: {E_FLT: p.modules[E_FLT].src.replace('    def can_put(self):', '    def can_put_disabled(self):', 1)})
+fire('C20', 'machine-push-rejects-fleet', 'C20.R2', 'Machine._push_item',
+     lambda p: M.replace_node(p, N_MAC, 'Machine._push_item', lambda n: isinstance(n, ast.If) and '__class__' in ast.unparse(n.test), sub('"Buffer", "Fleet", "ConveyorBelt"', '"Buffer", "ConveyorBelt"')))
+fire('C20', 'buffer-behaviour-plain-loop-spawned', 'C20.R3', 'Buffer.__init__',
+     lambda p: M.insert_after(p, E_BUF, 'Buffer.__init__', M.assign_to('self.inbuiltstore'), 'self.behavior = self.env.process(self.behaviour())'))
+fire('C20', 'sink-loop-iteration-without-yield', 'C20.R3', 'Sink.behaviour',
+     lambda p: M.insert_after(p, N_SNK, 'Sink.behaviour', M.stmt_calling('self.update_state'), 'if not self.in_edges[0].can_get():\n    continue'))
+fire('C20', 'fleet-activation-busy-loop', 'C20.R3', 'fleet_activation_process',
+     lambda p: M.replace_node(p, S_FLT, 'FleetStore.fleet_activation_process', lambda n: isinstance(n, ast.Expr) and isinstance(n.value, ast.Yield),
+                              'if self.items:\n    yield self.env.any_of(event_list)'))
+fire('C20', 'belt-pattern-endless-shift', 'C20.R3', '_get_belt_pattern',
+     lambda p: M.replace_node(p, S_BELT, 'BeltStore._get_belt_pattern', M.if_testing('pos < 0'), 'pass', which=0))
+fire('C20', 'edge-capacity-check-removed', 'C20.R4', 'validates:capacity',
+     lambda p: M.replace_node(p, 'edges/edge.py', 'Edge.__init__', M.if_testing('self.capacity <= 0'), 'pass'))
+fire('C20', 'buffer-mode-check-removed', 'C20.R4', 'validates:mode',
+     lambda p: M.replace_node(p, E_BUF, 'Buffer.__init__', M.if_testing('self.mode not in'), 'pass'))
+fire('C20', 'source-zero-interarrival-accepted', 'C20.R4', 'nonblocking-zero-interarrival',
+     lambda p: M.replace_node(p, N_SRC, 'Source.__init__', M.if_testing('inter_arrival_time == 0'), sub('inter_arrival_time == 0 and not self.blocking', 'False')))
+fire('C20', 'node-delay-sign-unchecked', 'C20.R4', 'Node.get_delay',
+     lambda p: M.delete_stmt(p, 'nodes/node.py', 'Node.get_delay', lambda n: isinstance(n, ast.Assert)))
+fire('C20', 'machine-edges-not-required', 'C20.R4', 'has-out_edges',
+     lambda p: M.delete_stmt(p, N_MAC, 'Machine.behaviour', lambda n: isinstance(n, ast.Assert) and 'out_edges' in ast.unparse(n.test)))
+fire('C20', 'splitter-constant-index-unchecked', 'C20.R4', 'constant-in-index',
+     lambda p: M.replace_node(p, N_SPL, 'Splitter.reset', lambda n: isinstance(n, ast.Assert) and 'in_edge_selection' in ast.unparse(n.test), 'pass'))
+fire('C20', 'conveyor-get-event-double-fire', 'C20.R5', 'ConveyorBelt.get',
+     lambda p: M.insert_after(p, E_CC, 'ConveyorBelt.get', M.stmt_calling('self.get_events_available.succeed'), 'self.ready_pulse = self.env.event()\nself.ready_pulse.succeed()\nself.ready_pulse.succeed()'),
+     accept_analysis_error=False)
+fire('C20', 'machine-yields-put-result', 'C20.R6', 'Machine.worker',
+     lambda p: M.replace_node(p, N_MAC, 'Machine.worker', M.assign_to('y'), 'y = yield outedge_to_put.put(put_event, item)'))
+fire('C20', 'machine-first-iteration-none-deref', 'C20.R7', 'Machine.behaviour',
+     lambda p: M.insert_after(p, N_MAC, 'Machine.behaviour', M.stmt_calling('self._update_worker_occupancy'), 'print(self.item_in_process.id)'))
+silent('C20', 'sink-edge-attribute-guarded',
+       lambda p: M.replace_node(p, N_SNK, 'Sink.behaviour', M.assign_to('self.in_edge_events'),
+                                'self.in_edge_events = [edge.inbuiltstore.reserve_get() for edge in self.in_edges]  # unchanged'))
+silent('C20', 'machine-new-helper-attribute',
+       lambda p: M.chain(p, lambda q: M.insert_after(q, N_MAC, 'Machine.__init__', M.assign_to('self.blocking'), 'self.extra_counter = 0'),
+                         lambda q: M.insert_after(q, N_MAC, 'Machine.worker', M.stmt_calling('self._update_avg_time_spent_in_processing'), 'self.extra_counter += 1')))
